@@ -64,6 +64,35 @@ def real() -> Mods:
     return _R
 
 
+_CLASS_STATE = {}
+
+
+def reset_mutable_class_state(M, modules=("protocol", "modbus")):
+    """Class- and module-level containers (dict/list/set) of the code under test are brought back to their import-time
+    content, so that one symbolic path does not inherit what an earlier path (or an earlier replay) left there.
+    State that leaks between objects *within* one path is what the history harnesses are about; leaking between
+    paths would only make models non-replayable."""
+    for name in modules:
+        mod = getattr(M, name)
+        owners = [mod] + [c for c in vars(mod).values() if isinstance(c, type) and c.__module__ == mod.__name__]
+        for o in owners:
+            for attr, val in list(vars(o).items()):
+                if attr.startswith("__") or not isinstance(val, (dict, list, set)) or attr.isupper() or attr.startswith("_CRC"):
+                    continue
+                key = (id(o), attr)
+                if key not in _CLASS_STATE:
+                    _CLASS_STATE[key] = (val, type(val)(val))
+                    continue
+                obj, init = _CLASS_STATE[key]
+                if obj is val:
+                    if isinstance(val, dict):
+                        val.clear(); val.update(init)
+                    elif isinstance(val, list):
+                        val[:] = init
+                    else:
+                        val.clear(); val |= init
+
+
 def source_hash():
     h = hashlib.sha256()
     root = os.path.join(src_root(), "goodwe")
